@@ -138,7 +138,7 @@ def simple_field(draw, names, depth):
 @st.composite
 def seq_items(draw, names, depth):
     """item definition (consumes >= 1 octet) and 0..4 value assignments for it"""
-    style = draw(st.sampled_from(["fixed", "tlv", "fixed"]))
+    style = draw(st.sampled_from(["fixed", "tlv", "fixed", "nested"]))
     sub = Names()
     sub.n = names.n + 100
     if style == "tlv":
@@ -150,6 +150,18 @@ def seq_items(draw, names, depth):
         for _ in range(draw(st.integers(0, 4))):
             data = draw(st.binary(max_size=6))
             items.append({ts["name"]: draw(st.integers(0, 255)), ls["name"]: len(data), vname: data})
+        names.n = sub.n
+        return item, items
+    if style == "nested":
+        # item = length octet + nested envelope of that length (the nested envelope checks its own length)
+        inner, v0 = draw(envelope(sub, 0, allow_tail=False, static_only=True))
+        n_in = codec_ref.static_size(inner)
+        ls, _ = draw(int_field(sub, plain=True, nlen=1))
+        ename = sub.new("e")
+        item = [ls, {"k": "env", "name": ename, "fields": inner, "lenfrom": ls["name"]}]
+        items = [{ls["name"]: n_in, ename: v0}]
+        for _ in range(draw(st.integers(0, 3))):
+            items.append({ls["name"]: n_in, ename: draw(values_for(inner))})
         names.n = sub.n
         return item, items
     # fixed-structure item: regenerate values for each element by drawing the same structure again is not possible,
@@ -318,6 +330,29 @@ def same(got, exp):
     return got == exp and type(got) is type(exp)
 
 
+def add_slack(fields, vals, j, in_seq_items=None):
+    """give the first length-prefixed nested envelope found j spare octets it does not declare (reference side only)"""
+    for f in fields:
+        if f["k"] == "env" and "lenfrom" in f:
+            f["fields"] = list(f["fields"]) + [{"k": "spare", "name": "slack", "len": j, "filler": 0xEE}]
+            for v in (in_seq_items if in_seq_items is not None else [vals]):
+                if v[f["lenfrom"]] + j > 255 and any(x["name"] == f["lenfrom"] and x["len"] == 1 for x in fields if x["k"] == "int"):
+                    return False
+                v[f["lenfrom"]] += j
+            return True
+    for f in fields:
+        if f["k"] == "seq" and codec_ref.present(f, vals) and vals.get(f["name"]):
+            if add_slack(f["item"], None, j, in_seq_items=vals[f["name"]]):
+                if "lenfrom" in f:
+                    # the sequence's own byte-length prefix grows with its items
+                    vals[f["lenfrom"]] = sum(len(codec_ref.encode(f["item"], it).octets) for it in vals[f["name"]])
+                return True
+        if f["k"] == "env" and "lenfrom" not in f and codec_ref.present(f, vals) and not f.get("len"):
+            if add_slack(f["fields"], vals[f["name"]], j):
+                return True
+    return False
+
+
 def classify(fields, acc=None, depth=0):
     acc = acc if acc is not None else set()
     for f in fields:
@@ -403,7 +438,8 @@ def oracle(case):
             pass
     # 5. short input: every cut before the flexible tail
     limit = len(ref) if lay.tail is None else lay.tail
-    for cut in range(limit):
+    cuts = range(limit) if limit <= 120 else sorted(set(list(range(40)) + list(range(40, limit, 13)) + list(range(limit - 10, limit))))
+    for cut in cuts:
         for cl_ in (True, False):          # short input is short whether or not trailing octets are tolerated
             try:
                 build_env(fields, check_len=cl_).from_bytes(ref[:cut])
@@ -414,6 +450,20 @@ def oracle(case):
                     raise
                 raise Violation("c16:short-input-other-exception", "%r at cut %d" % (e, cut))
             raise Violation("c16:short-input-accepted", "prefix of %d of %d octets decoded (check_len=%s)" % (cut, len(ref), cl_))
+    # 5b. slack inside a length-prefixed nested envelope (also inside sequence items): the nested envelope checks its length
+    import copy
+    f2, v2 = copy.deepcopy(fields), copy.deepcopy(vals)
+    if add_slack(f2, v2, 1 + case["pick"] % 3):
+        try:
+            slack = bytes(codec_ref.encode(f2, v2).octets)
+        except codec_ref.Unencodable:
+            slack = None
+        if slack is not None:
+            try:
+                build_env(fields).from_bytes(slack)
+                raise Violation("c16:nested-tail-octets-accepted", "octets left over inside a length-prefixed nested envelope were accepted")
+            except codec.DecodeError:
+                pass
     # 6. fixed-value mismatch
     if lay.fixed:
         idx, mask = lay.fixed[case["pick"] % len(lay.fixed)]
